@@ -94,9 +94,15 @@ def gen_cases(rng, tier):
             g = rng.choice([3, D + 40])
             h += ['t%d' % g] + ['u%d' % k for k in down]
             last = now + g
-        h += ['t%d' % (D + 40), 'q']
-        cases.append({'id': 'c18-idle-%d' % i, 'cfg': cfg, 'hist': h, 'sub': 'ksim', 'idle': {'D': D, 'last': last},
-                      'tags': {'kind': 'on-idle', 'D': D}})
+        # the quiet stretch in iterations of 1, 2, 3, 5 or 7 milliseconds (a loop that comes late): the idle time advances by the
+        # length of the iteration and may step over the stated time without ever being equal to it
+        step = rng.choice([1, 1, 2, 3, 5, 7])
+        if step == 1:
+            h += ['t%d' % (D + 40), 'q']
+        else:
+            h += ['m%d' % step] * ((D + 40) // step + 1) + ['q']
+        cases.append({'id': 'c18-idle-%d' % i, 'cfg': cfg, 'hist': h, 'sub': 'ksim', 'idle': {'D': D, 'last': last, 'step': step},
+                      'tags': {'kind': 'on-idle', 'D': D, 'loop_step_ms': step}})
     return cases
 
 
@@ -109,7 +115,7 @@ def oracle(c, it):
         return 'on-idle %d never fired although kanata was idle for %d ms after the last input event (tick %d)' % (D, D + 40, last)
     if fires[0] < last + D:
         return 'on-idle %d fired at tick %d, only %d ms after the last input event (tick %d)' % (D, fires[0], fires[0] - last, last)
-    if fires[0] > last + D + 5:
+    if fires[0] > last + D + 5 + 2 * c['idle'].get('step', 1):
         return 'on-idle %d fired at tick %d, %d ms after the last input event (tick %d)' % (D, fires[0], fires[0] - last, last)
     if len(fires) != 1:
         return 'on-idle fired %d times (ticks %s)' % (len(fires), fires)
